@@ -62,18 +62,22 @@ def source(r):
         body += stmt(r, 0)
     text = " ".join(body)
     mode = r.randrange(3)
+    # file keys are arbitrary strings: short ones and long path-like ones (the key is part of a temporary's name)
+    style = r.choice(["%s", "%s", "lib/%s.theo", "/home/student/theoretische-informatik/uebung-07/aufgabe-2/%s.theo",
+                      "C:/Users/A Very Long User Name/Documents/Theo IDE Projects/semester 3/sheet 11/%s.theo"])
+    main = style % "main"
     if mode == 0:
         # every definition in its own file, all on line 1 (equal line numbers, equal #n)
-        files = {"main": "\n".join('include "h%d"' % i for i in range(len(DEFS))) + "\n" + text}
+        files = {main: "\n".join('include "%s"' % (style % ("h%d" % i)) for i in range(len(DEFS))) + "\n" + text}
         for i, d in enumerate(DEFS):
-            files["h%d" % i] = d
+            files[style % ("h%d" % i)] = d
     elif mode == 1:
-        files = {"main": " ".join(DEFS) + " " + text}   # all definitions on one line
+        files = {main: " ".join(DEFS) + " " + text}   # all definitions on one line
     else:
         ds = list(DEFS)
         r.shuffle(ds)
-        files = {"main": 'include "lib"\n' + text, "lib": "\n".join(ds)}
-    return files, "main"
+        files = {main: 'include "%s"\n' % (style % "lib") + text, style % "lib": "\n".join(ds)}
+    return files, main
 
 
 def plan(tier, seed):
